@@ -20,6 +20,7 @@ structure FlagS where
   mutex : List Nat
   nargs : Int := 0
   delim : String := ""
+  mode : Nat := 0
   deriving Repr, Inhabited
 
 structure CmdS where
@@ -42,7 +43,10 @@ def parseFlagS (j : Json) : FlagS :=
   { name := jstr (jget j "name"), short := jstr (jget j "short"), kind := jstr (jget j "kind"), persistent := jbool j "persistent",
     hidden := jbool j "hidden", deprecated := jbool j "deprecated", shortDeprecated := jbool j "shortDeprecated",
     mutex := (jarr j "mutex").toList.map (fun x => (x.getNat?).toOption.getD 0),
-    nargs := jint j "nargs", delim := jstr (jget j "delim") }
+    nargs := jint j "nargs", delim := jstr (jget j "delim"), mode := jnat j "mode" }
+
+/-- a flag that makes its flag set non-POSIX (no model: the landing oracles decide) -/
+def FlagS.nonPosix (f : FlagS) : Bool := f.mode != 0 || f.short.length > 1
 
 /-- does the tree use features of the pflag fork (several words per flag, custom delimiter)? -/
 def FlagS.fork (f : FlagS) : Bool := f.nargs != 0 || (f.delim != "" && f.delim != "=")
@@ -119,6 +123,9 @@ def runParseOp (inp out : Json) : Json :=
   let typedRun := jget out "typedRun"
   let typedOk := jstr (jget typedRun "err") == ""
   let hiddenEnv := jbool inp "hiddenEnv"
+  -- non-POSIX flag sets (a shorthand that is a word, ShorthandOnly / NameAsShorthand flags) have no model: only the
+  -- oracles on the real code apply
+  let nonPosixTree := cmds.any (fun c => c.flags.any FlagS.nonPosix)
   -- C01: every offered candidate, once accepted, lands in the slot whose completion produced it
   let c01 : List AFail := runs.filterMap (fun r =>
     let v := jstr (jget r "value")
@@ -153,6 +160,43 @@ def runParseOp (inp out : Json) : Json :=
           if ok then none
           else some { prop := "C01", code := "wrong_slot:" ++ (if kind.startsWith "flag_" then "flag" else String.ofList (kind.toList.takeWhile Char.isAlpha)),
                       detail := s!"{words}: candidate {v} comes from the completion of {m}, but the program ran command {rc} with args {args} (dash at {lad}) flags {(jget run "flags").compress}" })
+  -- C01, the other direction: the slot into which the program's own parser puts a word typed at the cursor
+  -- (a probe word, run on a fresh tree) is the slot whose registered completion is served
+  let probe := jget out "probeRun"
+  let c01p : List AFail :=
+    -- (the line typed so far need not be acceptable by itself: a flag may be waiting for this very word)
+    if probe.isNull || panic != "" || jstr (jget probe "err") != "" || !jbool probe "ran" then [] else
+    let rc := jnat probe "cmd"
+    let args := (jarr probe "args").toList.map jstr
+    let lad := jint probe "lenAtDash"
+    let flagsJ := jget probe "flags"
+    let cs := (cmds[rc]?).getD default
+    let inFlag : Option String := (flagsVisible cmds rc).findSome? (fun f =>
+      let fv := jstr (jget flagsJ f.name)
+      if fv == "PROBE" || fv == "[PROBE]" || fv.endsWith "PROBE]" || fv.endsWith "PROBE\"]" then some f.name else none)
+    let expected : Option (List String) :=
+      match inFlag with
+      | some n =>
+        (match flagOwner cmds rc n with
+         | some o => (match ((cmds[o]?).getD default).flags.find? (fun f => f.name == n) with
+            | some f => if f.kind == "bool" || f.kind == "count" then none else some [s!"M{o}_flag_{n}"]
+            | none => none)
+         | none => none)
+      | none =>
+        match (args.zipIdx.find? (fun (a, _) => a == "PROBE")).map (·.2) with
+        | none => none
+        | some i =>
+          if lad ≥ 0 && (i : Int) ≥ lad then
+            let k := i - lad.toNat
+            some (if k < cs.ndash then [s!"M{rc}_dash{k}"] else if cs.dashAny then [s!"M{rc}_dashAny"] else [])
+          else some (if i < cs.npos then [s!"M{rc}_pos{i}"] else if cs.posAny then [s!"M{rc}_posAny"] else [])
+    match expected with
+    | none => []
+    | some e =>
+      let realMarkers := (values.filterMap (fun v => (findMarker (jstr (jget v "value"))).map (fun (c, k) => s!"M{c}_{k}"))).eraseDups
+      let srt (l : List String) := sortBy (fun a b => Str.lt a.toList b.toList) l
+      if srt e == srt realMarkers then []
+      else [{ prop := "C01", code := "probe_slot_not_served", detail := s!"{words}: a word typed here is put by the program into the slot of {e} (command {rc}, args {args}, dash at {lad}, flags {flagsJ.compress}); served: {realMarkers}, messages {(jarr ex "messages").toList.map jstr}" }]
   -- the hidden helper command is not offered unless its name is being typed
   let c01b : List AFail :=
     if values.any (fun v => jstr (jget v "value") == "_carapace") && !cur.startsWith "_" && !hiddenEnv then
@@ -223,7 +267,7 @@ def runParseOp (inp out : Json) : Json :=
     let descentRisk : Bool :=
       (words.dropLast.foldl (fun (acc : Bool × Bool) w =>
         if subNames.contains w then (acc.1, acc.2 || acc.1) else (true, acc.2)) (false, false)).2
-    if !(cur == "-" || cur == "--") || !typedOk || !jbool typedRun "ran" || descentRisk then none else
+    if nonPosixTree || !(cur == "-" || cur == "--") || !typedOk || !jbool typedRun "ran" || descentRisk then none else
     let rc := jnat typedRun "cmd"
     match cmds[rc]? with
     | none => none
@@ -261,7 +305,7 @@ def runParseOp (inp out : Json) : Json :=
         if subNames.contains w then (acc.1, acc.2 || acc.1) else (true, acc.2)) (false, false)).2
     let tcr := jget out "typedCurRun"
     let letters := cur.toList.drop 1
-    if !(cur.startsWith "-") || cur.startsWith "--" || letters.isEmpty || !typedOk || descentRisk then none else
+    if nonPosixTree || !(cur.startsWith "-") || cur.startsWith "--" || letters.isEmpty || !typedOk || descentRisk then none else
     if tcr.isNull || jstr (jget tcr "err") != "" || !jbool tcr "ran" then none else
     -- the program itself took the word for flags (not for a positional after `--` or after a first positional)
     if ((jarr tcr "args").toList.map jstr).contains cur then none else
@@ -304,9 +348,9 @@ def runParseOp (inp out : Json) : Json :=
   let slotG := traverseSlotG (toTTreeG cmds) (cmds.size + 2) 0 (words.dropLast.map String.toList) cur.toList
   let slotP := traverseSlot (toTTree cmds) (cmds.size + 2) 0 (words.dropLast.map String.toList) cur.toList
   let modelsDiff : Option String :=
-    if forkTree || slotG == slotP then none else some s!"{words}: general model {repr slotG}, POSIX model {repr slotP}"
+    if forkTree || nonPosixTree || slotG == slotP then none else some s!"{words}: general model {repr slotG}, POSIX model {repr slotP}"
   let slotDiff : Option String :=
-    if panic != "" then none else
+    if panic != "" || nonPosixTree then none else
     if modelsDiff.isSome then modelsDiff else
     let slot := slotG
     let realMarkers := (values.filterMap (fun v => (findMarker (jstr (jget v "value"))).map (fun (c, k) => s!"M{c}_{k}"))).eraseDups
@@ -340,7 +384,7 @@ def runParseOp (inp out : Json) : Json :=
   -- C07: sub-command names are offered exactly at the first positional word (as the program's parser counts) of a
   -- command that has an available sub-command: the names and aliases of its non-deprecated, visible children
   let subsDiff : Option String :=
-    if panic != "" || modelsDiff.isSome then none else
+    if panic != "" || modelsDiff.isSome || nonPosixTree then none else
     let offeredSubs := ((values.filter (fun v => (jstr (jget v "tag")).endsWith "commands")).map (fun v => jstr (jget v "value"))).filter
       (fun v => v != "help" && v != "_carapace" && v != "completion")
     let srt (l : List String) := sortBy (fun a b => Str.lt a.toList b.toList) l.eraseDups
@@ -356,7 +400,7 @@ def runParseOp (inp out : Json) : Json :=
   let ruleDiff := match ruleDiff with | some d => some d | none => subsDiff
   let crash : List AFail := if panic != "" && !panic.startsWith "execute:" then
     [{ prop := "C18", code := "panic:traverse", detail := panic }, { prop := "C01", code := "panic", detail := panic }] else []
-  let fails := crash ++ c01.take 2 ++ c01b ++ c07.take 2 ++ c07b.take 1 ++ subFails.take 1
+  let fails := crash ++ c01.take 2 ++ c01p ++ c01b ++ c07.take 2 ++ c07b.take 1 ++ subFails.take 1
   let ruleDiff := match ruleDiff with | some d => some d | none => chainDiff
   Json.mkObj [("same", Json.bool (ruleDiff.isNone && slotDiff.isNone)), ("diff", Json.str ((ruleDiff.getD "") ++ (slotDiff.getD ""))),
               -- C06: where the model says the parser's error is shown, the real answer carries a message
@@ -366,7 +410,7 @@ def runParseOp (inp out : Json) : Json :=
                                          | .message => (jarr ex "messages").size > 0
                                          | _ => true)))]),
               ("fails", Json.arr (fails.map afailJson).toArray),
-              ("feat", Json.mkObj [("fork", Json.bool forkTree), ("slot", Json.str (match slotG with
+              ("feat", Json.mkObj [("fork", Json.bool forkTree), ("nonposix", Json.bool nonPosixTree), ("slot", Json.str (match slotG with
                                       | .message => "message" | .dash .. => "dash" | .flagValue .. => "flagValue" | .flagValueAttached .. => "flagValueAttached"
                                       | .boolValues .. => "boolValues" | .flagNames .. => "flagNames" | .positional .. => "positional" | .notFollowed => "notFollowed")),
                                    ("ncmds", Json.num cmds.size), ("nwords", Json.num words.length), ("ncands", Json.num values.length),
